@@ -2,6 +2,7 @@
 import os
 
 import common as C
+import validout
 
 CORPUS = os.path.join(C.VERIF, "corpus", "C12")
 
@@ -11,7 +12,7 @@ def build(ctx):
     ctx.log("translate", out)
     if not ok:
         ctx.diag.append("translator failed: " + out[-300:])
-    C.prove(ctx, ["Props/C12.v"], ["Oblig/C12Obl.v"])
+    C.prove(ctx, ["Props/C12.v", "Props/C12Valid.v"], ["Oblig/C12Obl.v", "Oblig/ValidFlatObl.v"])
     ok, out = C.build_harness()
     ctx.log("go build", out)
     if not ok:
@@ -73,6 +74,7 @@ def run(ctx):
             pass
     else:
         ctx.diag.append("correspondence could not run: " + out[-300:])
+    validout.run(ctx, "flatten")
     summ = oracle(ctx, ctx.scale(9000, 40000))
     ctx.add_summary(summ, "FlattenBatches oracle")
     if summ and "input_file_no_longer_valid_after_flatten" in summ:
